@@ -58,34 +58,41 @@ CLAIMED = {
          "Proof: Props/C01.lean (simulate_perm, simulate_perm_grouped, eval_respects for arbitrary systems, data, permutations) on the "
          "abstract DAG model Core/Dag.lean; the node kinds' models (Agg, Groupings, VecDtype) are tied to the code by C11/C12/C03 "
          "correspondences; the assembly of the real function set is explored, not modelled: partial there."
-         " Concrete model: Props/C01Sim.lean (ruleOp/timeConvOp/groupAggOp/pidSumOp of Core/Simulate.lean equivariant under every row permutation, lifted through Dag.eval: sys_eval_perm, pruned_eval_perm, …_fails_iff; witness that an undeclared return type breaks it), Props/C12Cor.lean (every id constructor: partition independent of the row order)."),
+         " Concrete model: Props/C01Sim.lean (ruleOp/timeConvOp/groupAggOp/pidSumOp of Core/Simulate.lean equivariant under every row permutation, lifted through Dag.eval: sys_eval_perm, pruned_eval_perm, …_fails_iff; witness that an undeclared return type breaks it), Props/C12Cor.lean (every id constructor: partition independent of the row order)."
+         " End to end: Props/C01E2E.lean (simulate_perm: Simulate.simulate of the row-permuted table is the row-permuted result; fails-iff), Props/C01Ids.lean (id constructors: same partition under permutation, aggregates depend on ids only through the partition, sys_eval_perm_ids). Tie T4: Simulate.simulate vs the real compute_taxes_and_transfers on the REAL rules, parameters and populations (≈ 290 of 320 nodes of the default graph)."),
  "C02": ("5/C02", "Lean 4 theorems: simulate_union (row-wise and group-aggregation nodes whose id columns are not cut evaluate on A++B "
          "restricted to A as on A), relabel_invariance under injective id relabellings, union_separable_grouped; metamorphic search on "
          "the real system (A, B, A++B, B++A, interleavings, relabelled A; all nodes)"
          " + separability of the concrete node operations and DAG evaluation of Core/Simulate.lean, union/relabelling corollaries for all id constructors",
          "Proof: Props/C02.lean on the abstract DAG model for arbitrary systems and populations; ties as for C01; the derived-id "
          "arithmetic (hh*100+flag, fg*100+k with k<100) is covered by C12 (wthh_no_collision, bg_nests_in_fg, bg_collision_at_100)."
-         " Concrete model: Props/C02Sim.lean (ruleOp/groupAggOp/pidSumOp on A++B restricted to A = on A under disjoint group ids / closed pointers, lifted: sys_eval_union, pruned_eval_union, sys_eval_union_of_parts; counterexamples without the separation hypotheses), Props/C12Cor.lean (union and relabelling theorems for all id constructors)."),
+         " Concrete model: Props/C02Sim.lean (ruleOp/groupAggOp/pidSumOp on A++B restricted to A = on A under disjoint group ids / closed pointers, lifted: sys_eval_union, pruned_eval_union, sys_eval_union_of_parts; counterexamples without the separation hypotheses), Props/C12Cor.lean (union and relabelling theorems for all id constructors)."
+         " End to end: Props/C02E2E.lean (simulate_union, simulate_union_snd, simulate_union_of_parts with computable separation checks and counterexamples)."),
  "C04": ("5/C04", "Lean 4 theorems: prune_sound, targets_indep, run_shape, extra_data_irrelevant on the abstract DAG model; search on "
          "the real system: every node alone / in random target sets / with all nodes, noise columns, debug and minimal-specification options"
          " + target independence, sub-target success and row count proved for the concrete model Core/Simulate.lean; node-purity search (read-only inputs)",
          "Proof: Props/C04.lean for arbitrary systems, data, fuel and target lists; the real creation of automatic group sums from the "
          "target list and the result assembly are explored on the real system (bit-identical comparison), not modelled: partial there."
-         " Concrete model: Props/C04Sim.lean (simulate_target_indep at full strength for Core/Simulate.lean, simulate_subtargets_succeed, simulate_rows, buildFunctions_targets_agree); the proof exposed a defect of the Python code, repaired by 86c6dca."),
+         " Concrete model: Props/C04Sim.lean (simulate_target_indep at full strength for Core/Simulate.lean, simulate_subtargets_succeed, simulate_rows, buildFunctions_targets_agree); the proof exposed a defect of the Python code, repaired by 86c6dca."
+         " Tie T4 (real rule system vs Core/Simulate.lean, also with out-of-fragment nodes cut) runs in this check."
+         " Props/C04Extra.lean: simulate_extra_column(s) — an unused column (computable check, each condition shown necessary) changes nothing."),
  "C05": ("5/C05", "Lean 4 theorems: override_equiv (supplying a node's own value changes no other node), override_used (data wins over "
          "the function of the same name), overridden_spec (the overlap that triggers the warning); search on the real system over the "
          "nodes of the default graph incl. the warning and 'supplied column is used'"
          " + feed-back theorem with necessary side conditions and 'supplied column is used' on the concrete model",
          "Proof: Props/C05.lean on the abstract DAG model; time-unit re-association through a supplied unit is covered by C13 "
          "(conv_compose) over Q and explored with 1e-9 tolerance on floats."
-         " Concrete model: Props/C05Sim.lean (simulate_feed_back_gen/_compat with the necessary side conditions S/T/F, each shown necessary by a kernel-checked counterexample; simulate_supplied_is_used; the unconditional statement is refuted for the model: simulate_feed_back_false)."),
+         " Concrete model: Props/C05Sim.lean (simulate_feed_back_gen/_compat with the necessary side conditions S/T/F, each shown necessary by a kernel-checked counterexample; simulate_supplied_is_used; the unconditional statement is refuted for the model: simulate_feed_back_false)."
+         " Tie T4 runs in this check."),
  "C06": ("5/C06", "Lean 4 theorems: locality (systems agreeing outside U agree on every node that cannot reach U), replace_by_copy, "
          "params_locality; search on the real system: per-group parameter perturbations, function replacements, identical copies, "
          "bit-identical comparison outside the predicted cone"
          " + parameter-reform locality proved for the concrete model; rounding-rule reforms in the search",
          "Proof: Props/C06.lean on the abstract DAG model for arbitrary systems; users(g) (rules with a <g>_params argument or rounding key "
          "g) is computed from the real function objects in the search."
-         " Concrete model: Props/C06Sim.lean (simulate_params_locality, simulate_params_copy, simulate_rule_copy for Core/Simulate.lean)."),
+         " Concrete model: Props/C06Sim.lean (simulate_params_locality, simulate_params_copy, simulate_rule_copy for Core/Simulate.lean)."
+         " Tie T4 runs in this check."
+         " Props/C06Fn.lean: function-reform locality (simulate_rule_locality, simulate_rule_pruned, simulate_rule_locality_checked)."),
  "C07": ("5/C07", "Lean 4 theorems on the parameter-loader model: latest_spec, loadGroup_cut / env_cut (the environment depends on the date "
          "only through finitely many entry-date cuts at the probes subYear^k d, jan1, and the year), functionsFor_spec / active_unique / "
          "functionsFor_cut, conflictTest_iff_overlap; kernel-decided registry obligations (pairwise disjoint validity intervals for all "
@@ -129,7 +136,8 @@ CLAIMED = {
          "fault-injected tables; fault injection on the real system",
          "Proof: Props/C20.lean; pandas/numpy conversions are modelled from probes of the installed versions (table in "
          "Core/Typing.lean) and compared on every run; sn-consistency of spouses is C12's snId_error_iff."
-         " Concrete model: Props/C20Sim.lean (checkData_ok_iff, convertCol_lossless, convertCol_error_iff, convertData_only_typed on Core/Simulate.lean)."),
+         " Concrete model: Props/C20Sim.lean (checkData_ok_iff, convertCol_lossless, convertCol_error_iff, convertData_only_typed on Core/Simulate.lean)."
+         " Props/C20Bridge.lean: the two independent models of the input validation (Core/Typing.lean and the validation stage of Core/Simulate.lean) agree on every table both can represent (checkData_agree, convertCol_agree, convertData_agree; witnesses where they differ: beyond 2^53 / int64, ragged tables)."),
  "C17": ("5/C17", "Lean 4 theorems over the shallow ℚ/Bool definitions of the ten decision rules (regenerated from /repo by the "
          "translator every run): ALG II > 0 excludes Kinderzuschlag and Wohngeld, Grundsicherung excludes all three, Kinderzuschlag "
          "only if need covered, needs unit within one part-household; definitions compared with the repo source on exact rationals; "
